@@ -1,7 +1,7 @@
 SPECIFICATION Spec
 CONSTANTS
   MaxDepth = 2
-  MaxTens = 4
+  MaxTens = 5
   Judge = TRUE
   Record = FALSE
   Dev = "self"
